@@ -3,9 +3,121 @@ from contracts import parsing as _p
 from pyvc import sym
 from pyvc.sym import eq
 
+import pendulum
+from contracts.helpers import base_wall, delta_us
+from pyvc import spec, strings
+from pyvc.contract import contract
+from pyvc.engine import Obj
+from pyvc.sym import And, Not
+
 ID = "C13"
-CONTRACTS = ["pendulum.parsing.iso8601._parse_iso8601_duration"]
+CONTRACTS = ["pendulum.parsing.iso8601._parse_iso8601_duration", "props.C13.c13_interval"]
 LEMMAS = []
+
+
+# ------------------------------------------------------------------------------------ interval strings
+# pendulum.parse('start/end' | 'start/duration' | 'duration/end'): parser.parse -> _parse -> parsing.parse -> _parse ->
+# _parse_iso8601_interval -> parse_iso8601 (twice) -> _Interval -> the assembly in parser._parse (instance(), add()/subtract(),
+# interval()) executed from their source; DateTime.add/subtract, instance and Interval construction through their contracts.
+def c13_interval(text):
+    return pendulum.parse(text)
+
+
+_DT1 = ("Y-M-D", "T", "hh:mm:ss", None, "Z")
+_DT2 = ("Y-M-D", "T", "hh:mm:ss", (".", 6), "Z")
+_DUR = (("Y", 1, 0), ("Mo", 2, 0), ("D", 2, 0), ("H", 2, 0), ("Mi", 2, 0), ("S", 2, 0))
+_DUR_YM = (("Y", 2, 0), ("Mo", 1, 0))
+_DUR_W = (("W", 2, 0),)
+
+
+def _interval_case(kind, left, right):
+    class case:
+        # an endpoint pushed past the ends of the calendar by the duration is a ValueError (ParserError) - an accepted outcome, as
+        # under C17; what is claimed here is the value whenever parse() returns
+        # (the duration forms need 30-90 s per value clause - Duration's hour/minute/second decomposition against the elapsed total -
+        # and are discharged in the thorough tier only; 'start/end' is discharged in both tiers)
+        options = {"transparent": ["pendulum.parser.parse"], "may_raise": (ValueError,), **({"tier": "thorough"} if kind != "start/end" else {})}
+
+        def applies(text):
+            return False
+
+        def args(F):
+            parts, cons = [], []
+            case._f = []
+            # spec variables: the target (year, month) of the calendar shift, defined by uniqueness (ty*12 + tmo-1 == total, 1 <= tmo <= 12)
+            case._ty, case._tmo = F.int("spec_ty"), F.int("spec_tmo")
+            for piece in (left, right):
+                if piece[0] == "dt":
+                    t, f, c = _p.build(F, *piece[1])
+                else:
+                    t, f, c = _p.dur_build(F, piece[1])
+                parts.append(t)
+                cons += c
+                case._f.append(f)
+            text = strings.CharStr(list(parts[0].chars) + ["/"] + list(parts[1].chars))
+            if kind != "start/end":
+                f, vals, sign = (case._f[0], case._f[1], 1) if kind == "start/duration" else (case._f[1], case._f[0], -1)
+                g = lambda u: sym.mul(sign, vals[u][0]) if u in vals else 0
+                total = sym.add(sym.add(sym.mul(f["year"], 12), sym.sub(f["month"], 1)), sym.add(sym.mul(g("Y"), 12), g("Mo")))
+                cons.append(And(eq(sym.add(sym.mul(case._ty, 12), sym.sub(case._tmo, 1)), total), sym.between(1, case._tmo, 12)))
+            return dict(text=text), cons
+
+        @staticmethod
+        def _denoted():
+            """(valid, wall clock of the start, wall clock of the end) the string denotes, all in UTC"""
+            wall = lambda f: spec.wall_us_f(f["year"], f["month"], f["day"], f["hour"], f["minute"], f["second"], _p.micro(f["frac"]) if "frac" in f else 0)
+            as_obj = lambda f: Obj(pendulum.DateTime, year=f["year"], month=f["month"], day=f["day"], hour=f["hour"], minute=f["minute"], second=f["second"],
+                                   microsecond=_p.micro(f["frac"]) if "frac" in f else 0, tzinfo=None, fold=0)
+
+            def shifted(f, vals, sign):
+                g = lambda u: sym.mul(sign, vals[u][0]) if u in vals else 0
+                u = dict(years=g("Y"), months=g("Mo"), weeks=g("W"), days=g("D"), hours=g("H"), minutes=g("Mi"), seconds=g("S"), microseconds=0)
+                # years and months first, the day clamped to the target month, then weeks, days and the time units as elapsed time
+                ty, tmo = case._ty, case._tmo
+                w = sym.add(base_wall(as_obj(f), ty, tmo), delta_us(u["weeks"], u["days"], u["hours"], u["minutes"], u["seconds"], 0))
+                return w, And(spec.valid_year(ty), sym.between(spec.wall_us_f(1, 1, 1, 0, 0, 0, 0), w, spec.wall_us_f(9999, 12, 31, 23, 59, 59, 999999)))
+
+            fa, fb = case._f
+            if kind == "start/end":
+                return And(_p.denoted(fa)[0], _p.denoted(fb)[0]), wall(fa), wall(fb)
+            if kind == "start/duration":
+                w, ok = shifted(fa, fb, 1)
+                return And(_p.denoted(fa)[0], ok), wall(fa), w
+            w, ok = shifted(fb, fa, -1)
+            return And(_p.denoted(fb)[0], ok), w, wall(fb)
+
+        def result(F, text):
+            raise NotImplementedError
+
+        def ensures(result, text):
+            if not (isinstance(result, Obj) and result.cls is pendulum.Interval):
+                return [("returns_an_Interval", False)]
+            valid, ws, we = case._denoted()
+            s_, e_ = result._start, result._end
+            utc = lambda x: isinstance(x.f.get("tzinfo"), Obj) and x.f["tzinfo"].f.get("key") == "UTC"
+            return [("returns_an_Interval", True),
+                    ("start_is_the_one_denoted" if kind != "duration/end" else "start_is_end_minus_duration_calendar_units_first", eq(spec.wall_us(s_), ws)),
+                    ("end_is_the_one_denoted" if kind != "start/duration" else "end_is_start_plus_duration_calendar_units_first", eq(spec.wall_us(e_), we)),
+                    ("both_in_UTC", utc(s_) and utc(e_))]
+
+    case.__name__ = kind + ":" + "/".join((_p.shape_name(*x[1]) if x[0] == "dt" else _p.dur_shape_name(x[1])) for x in (left, right))
+    return case
+
+
+def _interval_cases():
+    cs = [_interval_case("start/end", ("dt", _DT1), ("dt", _DT2)),
+          _interval_case("start/duration", ("dt", _DT1), ("dur", _DUR)),
+          _interval_case("start/duration", ("dt", _DT2), ("dur", _DUR_YM)),
+          _interval_case("start/duration", ("dt", _DT1), ("dur", _DUR_W)),
+          _interval_case("duration/end", ("dur", _DUR), ("dt", _DT1)),
+          _interval_case("duration/end", ("dur", _DUR_YM), ("dt", _DT2)),
+          _interval_case("duration/end", ("dur", _DUR_W), ("dt", _DT1))]
+    return {c.__name__: c for c in cs}
+
+
+@contract("props.C13.c13_interval", props=["C13"])
+class c13_interval_lemma:
+    cases = _interval_cases()
 
 
 def _canary_case():
@@ -37,7 +149,7 @@ ASSUMPTIONS = [
     "string shape: proofs are per shape (which designators are present, digits per number, fraction length); all digit values symbolic. Quick tier: 189 shapes (all 63 designator subsets, widths 1/3/9/10, fraction lengths 1..9 on every admissible unit, 12 ill-formed shapes); thorough tier: widths 1..10 and both separators for every fraction length",
     "A-FLOAT: the float products int(frac) / 10**k * 24 etc. and timedelta's float accumulation are treated as exact real arithmetic with one final round-half-even (CPython's delta_new); the bounded sweep compares with exact Fractions on the real objects",
     "Duration.__new__ is used through its contract (proved under C09, real-argument case widened to days/hours/minutes/seconds)",
-    "interval strings ('start/end', 'start/duration', 'duration/end'): _parse_iso8601_interval and parser.py's assembly are checked bounded (constructive oracle), not proved",
+    "interval strings: pendulum.parse('start/end') is proved per shape in both tiers, 'start/duration' and 'duration/end' (full PnYnMnDTnHnMnS, PnYnM and PnW durations) in the thorough tier only (harness lemma c13_interval: _parse_iso8601_interval, parse_iso8601, _Interval and parser._parse's assembly executed from their source; instance(), DateTime.add/subtract and Interval construction through their contracts; endpoints in UTC; a result past the ends of the calendar is an accepted ValueError); other endpoint shapes, offsets and the tz option are checked bounded (constructive oracle)",
     "Rust parser: never proved; rebuilt from the working tree on every run, bounded comparison with the exact oracle",
 ]
 EXPLANATION = ("_parse_iso8601_duration (pure-Python backend) is executed symbolically from its source once per duration shape with symbolic digits: an ill-formed shape (fraction on years/months or "
@@ -52,7 +164,7 @@ def bounded(ctx):
 
 
 MANIFEST_ENTRY = {
-    "text": "For every duration shape (any subset of the designators Y M D T H M S or W alone, 1..10 digits per number, a fraction of 1..9 digits after '.' or ',' on the smallest component) and ALL digit values, the pure-Python _parse_iso8601_duration is proved to return a Duration with exactly the written years and months and a native value within half a microsecond of the exact rational value of the remaining components, to raise a ValueError exactly when that value does not fit a timedelta, and to reject fractional years/months, fractions before the last component and weeks mixed with other units. The compiled parser and the three interval forms are checked bounded against an exact Fraction oracle on both backends.",
+    "text": "For every duration shape (any subset of the designators Y M D T H M S or W alone, 1..10 digits per number, a fraction of 1..9 digits after '.' or ',' on the smallest component) and ALL digit values, the pure-Python _parse_iso8601_duration is proved to return a Duration with exactly the written years and months and a native value within half a microsecond of the exact rational value of the remaining components, to raise a ValueError exactly when that value does not fit a timedelta, and to reject fractional years/months, fractions before the last component and weeks mixed with other units. pendulum.parse('start/end') is proved per shape to return the Interval with exactly the denoted endpoints in UTC, and (thorough tier) 'start/duration' and 'duration/end' to add / subtract the duration from the given endpoint with years and months first, the day clamped, then the elapsed part. The compiled parser and the interval forms on other shapes are checked bounded against an exact Fraction oracle on both backends.",
     "note": "Trusted: pyvc, z3/cvc5, A-RE, A-FLOAT (float arithmetic as exact reals; the bounded sweep uses exact Fractions on the real objects). Proof is per shape: 189 shapes quick, more in the thorough tier. Three genuine defects of the Python parser found by refuted obligations and fixed (fractions always divided by 10, fractional weeks truncated; fractional seconds truncated; OverflowError instead of ValueError). Rust defects (coarse W/D/H fractions, u32 wrap-around, 'P1.W', 'P1WT1H') and the float decomposition of durations >= 2^32 s in interval assembly are bounded known findings.",
     "technique": "contract-based deductive verification per duration shape (symbolic execution of the real parser with symbolic digits, z3/cvc5); bounded exact-oracle sweeps for the Rust parser and interval assembly",
     "design_ref": "DESIGN.md section 8 (C13), 12",
